@@ -191,6 +191,54 @@ fn vp_native_chunked_truncation_corruption_faults() {
     println!("VP-NATIVE chunked_truncation_corruption_faults cases={}", cases);
 }
 
+/// the stream ends with an I/O error (or with end-of-file) once `data` is used up
+struct EndsWith<'a> { data: &'a [u8], pos: usize, seg: usize, end: Option<io::ErrorKind> }
+impl<'a> Read for EndsWith<'a> {
+    fn read(&mut self, buf: &mut [u8]) -> io::Result<usize> {
+        if self.pos == self.data.len() { return match self.end { Some(k) => Err(k.into()), None => Ok(0) }; }
+        let n = buf.len().min(self.seg).min(self.data.len() - self.pos);
+        buf[..n].copy_from_slice(&self.data[self.pos..self.pos + n]);
+        self.pos += n;
+        Ok(n)
+    }
+}
+/// C02: bodies with chunks larger than the reader's 64 KiB window, cut inside the chunk data, at its end, inside its line ending
+/// or before the last chunk (by end-of-file, a reset or a timed-out read), read with buffers from 1 byte to several windows:
+/// the body never ends cleanly, and what was handed out is a prefix of the payload, also over further reads after the error
+#[test]
+fn vp_native_chunked_big_chunks_truncated() {
+    let mut cases = 0u64;
+    for len in [65537usize, 131072, 200 * 1024, 1 << 20] {
+        let payload: Vec<u8> = (0..len).map(|i| (i * 13 + i / 255) as u8).collect();
+        let wire = encode(&[&payload[..]], 0);
+        let data_at = wire.len() - 5 - 2 - len;   // size line | data | CRLF | 0 CRLF CRLF
+        assert!(&wire[data_at..data_at + 4] == &payload[..4]);
+        let mut cuts: Vec<usize> = vec![data_at + 1, data_at + 65535, data_at + 65536, data_at + 65537, data_at + len / 2, data_at + len - 1, data_at + len, data_at + len + 1, data_at + len + 2, wire.len() - 3, wire.len() - 1];
+        if len > 131072 { cuts.extend([data_at + 131072, data_at + 131073, data_at + 1_000_000.min(len - 7)]); }
+        // the chunk data not followed by a line ending
+        let mut bad_le = wire.clone(); bad_le[data_at + len] = b'x'; bad_le[data_at + len + 1] = b'y';
+        for (wire, cut) in cuts.iter().map(|&c| (&wire, c)).chain(std::iter::once((&bad_le, bad_le.len()))) {
+            for end in [None, Some(io::ErrorKind::ConnectionReset), Some(io::ErrorKind::TimedOut)] { for seg in [4096usize, 1 << 21] {
+                for sizes in [&[1usize << 21][..], &[300_000], &[131072], &[65536], &[1, 200_000], &[8192]] {
+                    let mut r = ChunkedReader::new(BufReader::new(EndsWith { data: &wire[..cut], pos: 0, seg, end }));
+                    let mut got: Vec<u8> = Vec::new(); let mut errors = 0;
+                    for i in 0..100_000 {
+                        let mut b = vec![0u8; sizes[i % sizes.len()]];
+                        match r.read(&mut b) {
+                            Ok(0) => { assert!(errors > 0, "a body cut at wire offset {} of {} (chunk of {}) ended cleanly after {} bytes; stream end {:?} seg {} read sizes {:?}", cut, wire.len(), len, got.len(), end, seg, sizes); break; }
+                            Ok(n) => got.extend_from_slice(&b[..n]),
+                            Err(_) => { errors += 1; if errors > 3 { break; } }
+                        }
+                        assert!(got.len() <= payload.len() && got[..] == payload[..got.len()], "handed out {} bytes that are not a prefix of the payload; cut {} stream end {:?} seg {} sizes {:?}", got.len(), cut, end, seg, sizes);
+                    }
+                    cases += 1;
+                }
+            } }
+        }
+    }
+    println!("VP-NATIVE chunked_big_chunks_truncated cases={}", cases);
+}
+
 /// C05: every byte string over a framing alphabet up to length 6, and size-line edge cases (huge numbers, long and endless lines):
 /// no panic, and reading ends (Ok(0) or an error) within a bounded number of calls
 #[test]
